@@ -413,7 +413,7 @@ func (w *World) Build(c Cell, idx int, h uint32, opts ...BuildOpts) (*Built, err
 	pad, nrules := 0, 0
 	if target > 0 {
 		const ruleLen = 5411
-		l0 := len(encodeTx(assemble(0, 0, 0, 0, nil), spec))
+		l0 := len(encodeTx(assemble(0, 0, 0, 0, nil), encSpec{enc: "canon", form: c.Form, ruleSigner: -1}))
 		if need := target - l0 - 65000; need > 0 {
 			nrules = (need + ruleLen - 1) / ruleLen
 		}
@@ -422,7 +422,8 @@ func (w *World) Build(c Cell, idx int, h uint32, opts ...BuildOpts) (*Built, err
 		}
 		pad = 1000
 		for try := 0; ; try++ {
-			l := len(encodeTx(assemble(pad, nrules, 0, 0, nil), spec))
+			// the size of a transaction is the length of its (canonical) encoding, however it arrived
+			l := len(encodeTx(assemble(pad, nrules, 0, 0, nil), encSpec{enc: "canon", form: c.Form, ruleSigner: -1}))
 			if l == target {
 				break
 			}
@@ -436,6 +437,12 @@ func (w *World) Build(c Cell, idx int, h uint32, opts ...BuildOpts) (*Built, err
 	probe := assemble(pad, nrules, 0, 0, nil)
 	sizeRecv := int64(len(encodeTx(probe, spec)))
 	sizeCanon := int64(len(encodeTx(probe, encSpec{enc: "canon", form: c.Form, ruleSigner: -1})))
+	// the size the node itself attributes to what it receives (read from the real object: the fee cells are placed
+	// relative to it)
+	sizeNode := sizeRecv
+	if pp, err := transaction.NewTransactionFromBytes(encodeTx(probe, spec)); err == nil {
+		sizeNode = int64(pp.Size())
+	}
 	std := true
 	var wcost, rpcCost int64
 	exec := w.bc.GetBaseExecFee()
@@ -466,7 +473,7 @@ func (w *World) Build(c Cell, idx int, h uint32, opts ...BuildOpts) (*Built, err
 	if c.Form != "ok" { // should the container be let through, nothing else must stand in its way
 		margin = gas
 	}
-	netfee := sizeRecv*w.fpb + attrFee + wcost + d + margin + opt.ExtraFee + opt.ExtraFeePerByte*sizeRecv
+	netfee := sizeNode*w.fpb + attrFee + wcost + d + margin + opt.ExtraFee + opt.ExtraFeePerByte*sizeNode
 	sysfee := int64(100_0000)
 	if opt.SysFee > 0 || opt.SysFeeSet {
 		sysfee = opt.SysFee
@@ -511,7 +518,7 @@ func (w *World) Build(c Cell, idx int, h uint32, opts ...BuildOpts) (*Built, err
 		"attr": "ok", "wval": c.Wval, "enc": c.Enc, "std": std, "maxsize": transaction.MaxTransactionSize,
 		"vubrel": int64(vub) - int64(h), "dup": false, "namedby": "none", "blocked": false, "sysover": false,
 		"size": sizeRecv, "baseslack": clip(netfee - (sizeCanon*w.fpb + attrFee)), "slack": clip(netfee - (sizeCanon*w.fpb + attrFee + wcost)),
-		"balslack": clip(bal - netfee - sysfee), "recvslack": clip(netfee - (sizeRecv*w.fpb + attrFee + wcost))}
+		"balslack": clip(bal - netfee - sysfee), "recvslack": clip(netfee - (sizeNode*w.fpb + attrFee + wcost))}
 	if isBadAttr(c.Attr) {
 		f["attr"] = c.Attr
 	}
@@ -540,6 +547,7 @@ func (w *World) Build(c Cell, idx int, h uint32, opts ...BuildOpts) (*Built, err
 	}
 	b.Facts = f
 	b.Info["size_recv"], b.Info["size_canon"], b.Info["wcost"], b.Info["attrfee"] = sizeRecv, sizeCanon, wcost, attrFee
+	b.Info["size_node"] = sizeNode
 	b.Info["rpc_wcost"], b.Info["attrfee_node"] = rpcCost, w.bc.CalculateAttributesFee(probe)
 	f["feesources"] = rpcCost == wcost && attrFee == w.bc.CalculateAttributesFee(probe)
 	return b, nil
